@@ -54,7 +54,11 @@ fn strace_shape(file: &std::path::Path, dir: &std::path::Path) -> Result<String>
 		else if l.contains("read(") && !l.contains("pread") && l.contains(&format!(", {PROBE_LEN})")) && l.trim_end().ends_with(&format!("= {PROBE_LEN}")) { calls.push(format!("read:{PROBE_LEN}")); }
 	}
 	// three identical calls were made
-	anyhow::ensure!(calls.len() % 3 == 0 && !calls.is_empty(), "unexpected strace shape: {calls:?}");
+	if calls.is_empty() || calls.len() % 3 != 0 {
+		// not the three identical positional reads: show every read-like call on the probe file's descriptor range instead
+		let other: Vec<String> = txt.lines().filter(|l| (l.contains("pread64(") || l.contains("lseek(") || l.contains("preadv")) && !l.contains("ENOENT")).map(|l| { let l = l.split_whitespace().skip(1).collect::<Vec<_>>().join(""); l.split('=').next().unwrap_or("").chars().filter(|c| !c.is_whitespace()).take(60).collect::<String>() }).take(6).collect();
+		return Ok(format!("unexpected:{}", other.join(";")));
+	}
 	let per = calls.len() / 3;
 	Ok(calls[..per].join(","))
 }
@@ -90,14 +94,14 @@ pub fn run(ctx: &Ctx) -> Result<()> {
 				for _ in 0..per {
 					let len = *rng.pick(&[1u64, 7, 8, 9, 64, 4096]);
 					let off = rng.below(size - len);
-					match rt.block_on(reader.read_range(&ByteRange::new(off, len))) {
+					match std::panic::catch_unwind(std::panic::AssertUnwindSafe(|| rt.block_on(reader.read_range(&ByteRange::new(off, len))))).unwrap_or_else(|_| Err(anyhow::anyhow!("panic"))) {
 						Ok(b) if b.as_slice() == expected(off, len).as_slice() => {}
 						_ => { bad.fetch_add(1, Ordering::SeqCst); let mut g = first_bad.lock().unwrap(); if g.is_none() { *g = Some((off, len)); } }
 					}
 				}
 			}));
 		}
-		for h in hs { h.join().unwrap(); }
+		for h in hs { if h.join().is_err() { bad.fetch_add(1, Ordering::SeqCst); } }
 		*stats.entry("thread_reads".into()).or_insert(0) += per * nthreads as u64;
 	}
 	// stress: tasks on a multi-thread runtime
@@ -121,7 +125,7 @@ pub fn run(ctx: &Ctx) -> Result<()> {
 					}
 				}));
 			}
-			for h in hs { h.await.unwrap(); }
+			for h in hs { if h.await.is_err() { bad.fetch_add(1, Ordering::SeqCst); let mut g = first_bad.lock().unwrap(); if g.is_none() { *g = Some((u64::MAX, 0)); } } }
 		});
 		*stats.entry("task_reads".into()).or_insert(0) += per * ntasks;
 	}
@@ -151,7 +155,7 @@ pub fn run(ctx: &Ctx) -> Result<()> {
 				}
 			}));
 		}
-		for h in hs { h.join().unwrap(); }
+		for h in hs { if h.join().is_err() { bad.fetch_add(1, Ordering::SeqCst); } }
 		*stats.entry("thread_reads".into()).or_insert(0) += 8 * rounds;
 		*stats.entry("large_reads".into()).or_insert(0) += 8 * rounds;
 		let _ = std::fs::remove_file(&big);
